@@ -345,12 +345,25 @@ impl Layer {
         result
     }
 
-    pub(crate) fn stamp(&mut self, target_pos: Position, layer: &Layer) {
-        let area = layer.get_rectangle();
-        for y in area.y_range() {
-            for x in area.x_range() {
+    /// Writes one cell like `set_char`, but without the lock, visibility and alpha-lock guards.
+    /// Undo and redo use it to put back exactly the cells they recorded.
+    pub(crate) fn restore_char(&mut self, pos: Position, attributed_char: AttributedChar) {
+        if pos.x < 0 || pos.y < 0 || pos.x >= self.get_width() || pos.y >= self.get_height() {
+            return;
+        }
+        if pos.y >= self.lines.len() as i32 {
+            self.lines.resize(pos.y as usize + 1, Line::create(self.size.width));
+        }
+        self.lines[pos.y as usize].set_char(pos.x, attributed_char);
+    }
+
+    /// Puts the cells of `layer` (a snapshot taken with `from_layer` or a clone) back at `target_pos`.
+    /// Only the cells of the snapshot are written: whatever else `lines` holds is kept.
+    pub(crate) fn restore(&mut self, target_pos: Position, layer: &Layer) {
+        for y in 0..layer.get_height() {
+            for x in 0..layer.get_width() {
                 let pos = Position::new(x, y);
-                self.set_char(pos + target_pos, layer.get_char(pos));
+                self.restore_char(pos + target_pos, layer.get_char(pos));
             }
         }
     }
